@@ -309,6 +309,7 @@ def plan_C03(ctx):
     run_family(ctx, "merge_obs", n_of(ctx, 250, 5000), perfile=n_of(ctx, 20, 40), seed_off=3)
     run_family(ctx, "assoc", n_of(ctx, 40, 600), perfile=10, seed_off=4)
     run_family(ctx, "mass_delete", n_of(ctx, 5, 60), perfile=1, seed_off=2)
+    run_family(ctx, "fault_merge", n_of(ctx, 64, 512), perfile=16)               # one read of a file-backed input fails while the merge runs
     run_family(ctx, "merge_chain", n_of(ctx, 20, 300), perfile=10, seed_off=2)
     canary(ctx)
 
@@ -325,6 +326,8 @@ def plan_C04(ctx):
     run_family(ctx, "huge", n_of(ctx, 2, 8), perfile=1, seed_off=2)
     run_family(ctx, "field_limit", n_of(ctx, 1, 4), perfile=1, seed_off=1)     # 65535 fields: the 16-bit field id limit
     run_family(ctx, "conc_write", n_of(ctx, 16, 240), perfile=4)               # writers side by side (one-byte merge buffers, slow destinations)
+    run_family(ctx, "card_boundary", n_of(ctx, 6, 24), perfile=1, seed_off=3)
+    run_family(ctx, "big_stored", n_of(ctx, 2, 12), perfile=1)                      # megabytes of stored values inside one 128-document block
     canary(ctx)
 
 
@@ -337,6 +340,8 @@ def plan_C06(ctx):
     run_family(ctx, "stored_shapes", n_of(ctx, 200, 4000), perfile=n_of(ctx, 20, 40))
     run_family(ctx, "stored_sweep", n_of(ctx, 80, 400), perfile=5)
     run_family(ctx, "extremes", n_of(ctx, 3, 36), perfile=1, seed_off=5)         # stored values of tens of kilobytes
+    run_family(ctx, "big_stored", n_of(ctx, 2, 12), perfile=1, seed_off=1)
+    run_family(ctx, "copy_boundary", n_of(ctx, 6, 60), perfile=2)                 # output blocks ending inside a copied source block
     run_family(ctx, "huge", n_of(ctx, 2, 8), perfile=1, seed_off=4)
     canary(ctx)
 
@@ -346,6 +351,7 @@ def plan_C07(ctx):
     run_family(ctx, "dv_small", n_of(ctx, 200, 4000), perfile=n_of(ctx, 20, 40))
     run_family(ctx, "dv_walk", n_of(ctx, 24, 300), perfile=2)
     run_family(ctx, "dv_merge_order", n_of(ctx, 8, 80), perfile=2, seed_off=1)
+    run_family(ctx, "fault_dv_partial", n_of(ctx, 256, 1024), perfile=64, seed_off=1)   # readers of several fields out of step after a failed load
     require_cov(ctx, "tag:dv_chunk_gap")
     canary(ctx)
 
@@ -398,6 +404,7 @@ def plan_C09(ctx):
     run_family(ctx, "conc_persist", n_of(ctx, 10, 200), perfile=10, seed_off=1)
     run_family(ctx, "conc_write", n_of(ctx, 8, 160), perfile=4, seed_off=2)
     run_family(ctx, "iter_share", n_of(ctx, 40, 600), perfile=20, seed_off=2)    # interleaved readers on one goroutine are schedules too
+    run_family(ctx, "dict_interleave", n_of(ctx, 60, 600), perfile=20, seed_off=5)  # overlapping bounded dictionary scans
     race_pass(ctx, "conc_free", n_of(ctx, 24, 300), "C09")
     canary(ctx)
 
@@ -417,6 +424,7 @@ def plan_C11(ctx):
     run_family(ctx, "conc_persist", n_of(ctx, 20, 300), perfile=10)       # overlapping WriteTo calls on one segment object
     run_family(ctx, "conc_write", n_of(ctx, 12, 200), perfile=6, seed_off=1)
     run_family(ctx, "faults_w", n_of(ctx, 2, 40), perfile=1, seed_off=3)     # the count returned = the bytes the destination received
+    run_family(ctx, "faults_big", n_of(ctx, 2, 16), perfile=1)                # file-backed segment of several 64 KiB pieces
     run_family(ctx, "roundtrip", n_of(ctx, 150, 3000), perfile=n_of(ctx, 10, 30), seed_off=7)
     run_family(ctx, "merge_obs", n_of(ctx, 150, 3000), perfile=20, seed_off=8)
     canary(ctx)
@@ -425,6 +433,7 @@ def plan_C11(ctx):
 def plan_C12(ctx):
     e1_writer_faults(ctx)
     run_family(ctx, "faults_w", n_of(ctx, 6, 150), perfile=n_of(ctx, 1, 3))
+    run_family(ctx, "faults_big", n_of(ctx, 2, 16), perfile=1, seed_off=1)
     require_cov(ctx, "wfault_fail", "wfault_close", "wfault_nil_close")
 
 
@@ -439,6 +448,7 @@ def plan_C13(ctx):
     run_family(ctx, "dict_interleave", n_of(ctx, 80, 1500), perfile=20, seed_off=4)
     run_family(ctx, "dv_walk", n_of(ctx, 8, 100), perfile=2, seed_off=9)
     run_family(ctx, "iter_share", n_of(ctx, 80, 1500), perfile=20, seed_off=1)
+    run_family(ctx, "match", n_of(ctx, 60, 600), perfile=20, seed_off=3)           # the dictionary kept between consecutive terms of one call
     canary(ctx)
 
 
@@ -448,6 +458,7 @@ def plan_C14(ctx):
     run_family(ctx, "pool_big", n_of(ctx, 4, 40), perfile=1, env_extra={"VERIF_INLINE": "1"})
     run_family(ctx, "wide_repeat", n_of(ctx, 12, 200), perfile=4, env_extra={"VERIF_INLINE": "1"})   # wide schema, sparse stored fields
     run_family(ctx, "pool_vocab", n_of(ctx, 4, 24), perfile=1, env_extra={"VERIF_INLINE": "1"})     # > 10 000 distinct terms vs small vocabularies
+    run_family(ctx, "proc_history", n_of(ctx, 6, 60), perfile=3)                   # the same batch in fresh processes with different first builds
     run_family(ctx, "conc_build", n_of(ctx, 40, 600), perfile=n_of(ctx, 10, 20))
     run_family(ctx, "conc_write", n_of(ctx, 8, 160), perfile=4, seed_off=3)
     race_pass(ctx, "conc_build", n_of(ctx, 16, 200), "C14")
@@ -484,6 +495,7 @@ def plan_C17(ctx):
     run_family(ctx, "assoc", n_of(ctx, 120, 2500), perfile=n_of(ctx, 10, 20))
     run_family(ctx, "twin_merge", n_of(ctx, 60, 1200), perfile=10)
     run_family(ctx, "card_boundary", n_of(ctx, 6, 24), perfile=1, seed_off=2)
+    run_family(ctx, "copy_boundary", n_of(ctx, 6, 60), perfile=2, seed_off=1)
     run_family(ctx, "merge_chain", n_of(ctx, 20, 300), perfile=10, seed_off=5)
     canary(ctx)
 
@@ -491,6 +503,7 @@ def plan_C17(ctx):
 def plan_C18(ctx):
     e1_match_loop(ctx)
     run_family(ctx, "match", n_of(ctx, 250, 5000), perfile=n_of(ctx, 20, 40))
+    run_family(ctx, "fault_read", n_of(ctx, 60, 600), perfile=15, seed_off=4)     # lists of several pairs on failing storage: all, nothing or an error
     canary(ctx)
 
 
@@ -499,6 +512,7 @@ def plan_C19(ctx):
     e2_fst_cache(ctx, n_of(ctx, 40, 400))
     run_family(ctx, "fault_read", n_of(ctx, 150, 3000), perfile=n_of(ctx, 15, 40))
     run_family(ctx, "fault_read_big", n_of(ctx, 8, 120), perfile=1)
+    run_family(ctx, "fault_merge", n_of(ctx, 32, 256), perfile=16, seed_off=1)
     run_family(ctx, "fault_dv_partial", n_of(ctx, 512, 2048), perfile=64)                           # every read of a chunk load as the failure point, both directions
     run_family(ctx, "fault_transient", n_of(ctx, 48, 480), perfile=6)                               # one failing read, then healthy storage
     run_family(ctx, "fault_transient", n_of(ctx, 24, 240), perfile=6, seed_off=1, env_extra={"VERIF_INLINE": "1"})   # same goroutine: same pooled scratch
